@@ -105,22 +105,22 @@ Section LinBlock.
 
   Lemma rhs_lin0 a0 a1 a2 ix iy iz :
     snd (SYSm a0 ix iy iz) 0 = (al * snd (SYSp a1 ix iy iz) 0%Z + be * snd (SYSq a2 ix iy iz) 0%Z)%F.
-  Proof. rhs_row. Qed.
+  Proof using Fth two_nz hx_nz hy_nz hz_nz Hmx Hmy Hmz Hsx Hsy Hsz. rhs_row. Qed.
   Lemma rhs_lin1 a0 a1 a2 ix iy iz :
     snd (SYSm a0 ix iy iz) 1 = (al * snd (SYSp a1 ix iy iz) 1%Z + be * snd (SYSq a2 ix iy iz) 1%Z)%F.
-  Proof. rhs_row. Qed.
+  Proof using Fth two_nz hx_nz hy_nz hz_nz Hmx Hmy Hmz Hsx Hsy Hsz. rhs_row. Qed.
   Lemma rhs_lin2 a0 a1 a2 ix iy iz :
     snd (SYSm a0 ix iy iz) 2 = (al * snd (SYSp a1 ix iy iz) 2%Z + be * snd (SYSq a2 ix iy iz) 2%Z)%F.
-  Proof. rhs_row. Qed.
+  Proof using Fth two_nz hx_nz hy_nz hz_nz Hmx Hmy Hmz Hsx Hsy Hsz. rhs_row. Qed.
   Lemma rhs_lin3 a0 a1 a2 ix iy iz :
     snd (SYSm a0 ix iy iz) 3 = (al * snd (SYSp a1 ix iy iz) 3%Z + be * snd (SYSq a2 ix iy iz) 3%Z)%F.
-  Proof. rhs_row. Qed.
+  Proof using Fth two_nz hx_nz hy_nz hz_nz Hmx Hmy Hmz Hsx Hsy Hsz. rhs_row. Qed.
   Lemma rhs_lin4 a0 a1 a2 ix iy iz :
     snd (SYSm a0 ix iy iz) 4 = (al * snd (SYSp a1 ix iy iz) 4%Z + be * snd (SYSq a2 ix iy iz) 4%Z)%F.
-  Proof. rhs_row. Qed.
+  Proof using Fth two_nz hx_nz hy_nz hz_nz Hmx Hmy Hmz Hsx Hsy Hsz. rhs_row. Qed.
   Lemma rhs_lin5 a0 a1 a2 ix iy iz :
     snd (SYSm a0 ix iy iz) 5 = (al * snd (SYSp a1 ix iy iz) 5%Z + be * snd (SYSq a2 ix iy iz) 5%Z)%F.
-  Proof. rhs_row. Qed.
+  Proof using Fth two_nz hx_nz hy_nz hz_nz Hmx Hmy Hmz Hsx Hsy Hsz. rhs_row. Qed.
 End LinBlock.
 
 (* the block matrix depends neither on the fields, nor on the source, nor on
@@ -194,6 +194,38 @@ Section LinStep.
     pivot 6 (fst (gs_sys e1x e1y e1z spx spy spz eta_x eta_y eta_z zeta hx hy hz nu lhx nx lhy ny lhz nz
                          (fun _ => 0%F) ix iy iz)) j <> 0%F.
 
+  Lemma Lin3_of_eq (tm' t1' t2' tm t1 t2 : @St F) :
+    tm = tm' -> t1 = t1' -> t2 = t2' -> Lin3 tm' t1' t2' -> Lin3 tm t1 t2.
+  Proof. now intros -> -> ->. Qed.
+
+  (* solve + write-back, the three systems abstract (no large term is ever
+     rewritten or unified against another one) *)
+  Lemma L4_lin_abs (sysm sysp sysq : (Z -> F) * (Z -> F))
+        (mx my mz px py pz qx qy qz : Z -> Z -> Z -> F) ix iy iz :
+    fst sysm = fst sysp -> fst sysq = fst sysp ->
+    (forall j, 0 <= j < 6 -> pivot 6 (fst sysp) j <> 0%F) ->
+    (forall k, 0 <= k < 6 -> snd sysm k = (al * snd sysp k + be * snd sysq k)%F) ->
+    (forall i j l, mx i j l = (al * px i j l + be * qx i j l)%F) ->
+    (forall i j l, my i j l = (al * py i j l + be * qy i j l)%F) ->
+    (forall i j l, mz i j l = (al * pz i j l + be * qz i j l)%F) ->
+    Lin3 (let sys := sysm in let r := solve 6 (fst sys) (snd sys) in
+          (fst r, new_ex mx (snd r) ix iy iz, new_ey my (snd r) ix iy iz, new_ez mz (snd r) ix iy iz))
+         (let sys := sysp in let r := solve 6 (fst sys) (snd sys) in
+          (fst r, new_ex px (snd r) ix iy iz, new_ey py (snd r) ix iy iz, new_ez pz (snd r) ix iy iz))
+         (let sys := sysq in let r := solve 6 (fst sys) (snd sys) in
+          (fst r, new_ex qx (snd r) ix iy iz, new_ey qy (snd r) ix iy iz, new_ez qz (snd r) ix iy iz)).
+  Proof.
+    intros Em Eq Hpiv Hrhs Gx Gy Gz. cbv zeta. rewrite Em, Eq.
+    pose proof (solve_lin_ext 6 (fst sysp) (snd sysm) (snd sysp) (snd sysq) ltac:(lia) Hpiv Hrhs) as Hsol.
+    set (rm := snd (solve 6 (fst sysp) (snd sysm))) in *.
+    set (rp := snd (solve 6 (fst sysp) (snd sysp))) in *.
+    set (rq := snd (solve 6 (fst sysp) (snd sysq))) in *.
+    clearbody rm rp rq.
+    unfold Lin3. cbn [fst snd]. unfold new_ex, new_ey, new_ez.
+    repeat split; intros i j l;
+      (apply upd3_lin; [apply upd3_lin; [auto|apply Hsol; lia]|apply Hsol; lia]).
+  Qed.
+
   Lemma L4_lin iz iy ix tm t1 t2 : interior nx ny nz ix iy iz -> Lin3 tm t1 t2 ->
     Lin3 (L4m 0 0 iz iz (iz-1) (iz+1) iy iy (iy-1) (iy+1) ix tm)
          (L4p 0 0 iz iz (iz-1) (iz+1) iy iy (iy-1) (iy+1) ix t1)
@@ -202,43 +234,418 @@ Section LinStep.
     intros Hin (Gx & Gy & Gz).
     destruct tm as [[[am mx] my] mz], t1 as [[[a1 px] py] pz], t2 as [[[a2 qx] qy] qz].
     cbn [fst snd] in Gx, Gy, Gz.
-    rewrite (L4_step mx my mz smx smy smz eta_x eta_y eta_z zeta hx hy hz nu lhx nx lhy ny lhz nz am ix iy iz).
-    rewrite (L4_step px py pz spx spy spz eta_x eta_y eta_z zeta hx hy hz nu lhx nx lhy ny lhz nz a1 ix iy iz).
-    rewrite (L4_step qx qy qz sqx sqy sqz eta_x eta_y eta_z zeta hx hy hz nu lhx nx lhy ny lhz nz a2 ix iy iz).
-    cbv zeta.
-    set (sysm := gs_sys mx my mz smx smy smz eta_x eta_y eta_z zeta hx hy hz nu lhx nx lhy ny lhz nz am ix iy iz).
-    set (sysp := gs_sys px py pz spx spy spz eta_x eta_y eta_z zeta hx hy hz nu lhx nx lhy ny lhz nz a1 ix iy iz).
-    set (sysq := gs_sys qx qy qz sqx sqy sqz eta_x eta_y eta_z zeta hx hy hz nu lhx nx lhy ny lhz nz a2 ix iy iz).
-    assert (Em : fst sysm = fst sysp).
-    { exact (sys_matrix_indep_src mx my mz px py pz smx smy smz spx spy spz eta_x eta_y eta_z zeta
-               hx hy hz nu lhx nx lhy ny lhz nz am a1 ix iy iz). }
-    assert (Eq : fst sysq = fst sysp).
-    { exact (sys_matrix_indep_src qx qy qz px py pz sqx sqy sqz spx spy spz eta_x eta_y eta_z zeta
-               hx hy hz nu lhx nx lhy ny lhz nz a2 a1 ix iy iz). }
-    assert (Hpiv : forall j, 0 <= j < 6 -> pivot 6 (fst sysp) j <> 0%F).
-    { intros j Hj. unfold sysp.
+    refine (Lin3_of_eq _ _ _ _ _ _
+              (L4_step mx my mz smx smy smz eta_x eta_y eta_z zeta hx hy hz nu lhx nx lhy ny lhz nz am ix iy iz)
+              (L4_step px py pz spx spy spz eta_x eta_y eta_z zeta hx hy hz nu lhx nx lhy ny lhz nz a1 ix iy iz)
+              (L4_step qx qy qz sqx sqy sqz eta_x eta_y eta_z zeta hx hy hz nu lhx nx lhy ny lhz nz a2 ix iy iz)
+              _).
+    refine (L4_lin_abs
+              (gs_sys mx my mz smx smy smz eta_x eta_y eta_z zeta hx hy hz nu lhx nx lhy ny lhz nz am ix iy iz)
+              (gs_sys px py pz spx spy spz eta_x eta_y eta_z zeta hx hy hz nu lhx nx lhy ny lhz nz a1 ix iy iz)
+              (gs_sys qx qy qz sqx sqy sqz eta_x eta_y eta_z zeta hx hy hz nu lhx nx lhy ny lhz nz a2 ix iy iz)
+              mx my mz px py pz qx qy qz ix iy iz _ _ _ _ Gx Gy Gz).
+    - exact (sys_matrix_indep_src mx my mz px py pz smx smy smz spx spy spz eta_x eta_y eta_z zeta
+               hx hy hz nu lhx nx lhy ny lhz nz am a1 ix iy iz).
+    - exact (sys_matrix_indep_src qx qy qz px py pz sqx sqy sqz spx spy spz eta_x eta_y eta_z zeta
+               hx hy hz nu lhx nx lhy ny lhz nz a2 a1 ix iy iz).
+    - intros j Hj.
       rewrite (sys_matrix_indep_src px py pz e1x e1y e1z spx spy spz spx spy spz eta_x eta_y eta_z zeta
                  hx hy hz nu lhx nx lhy ny lhz nz a1 (fun _ => 0%F)).
-      now apply pivots. }
-    rewrite Em, Eq.
-    assert (Hrhs : forall k, 0 <= k < 6 -> snd sysm k = (al * snd sysp k + be * snd sysq k)%F).
-    { intros k Hk.
+      now apply pivots.
+    - intros k Hk.
       assert (C : k = 0 \/ k = 1 \/ k = 2 \/ k = 3 \/ k = 4 \/ k = 5) by lia.
-      unfold sysm, sysp, sysq.
-      destruct C as [E|[E|[E|[E|[E|E]]]]]; subst k;
-        [ apply (rhs_lin0 Fth two_nz al be mx my mz px py pz qx qy qz) 
-        | apply (rhs_lin1 Fth two_nz al be mx my mz px py pz qx qy qz)
-        | apply (rhs_lin2 Fth two_nz al be mx my mz px py pz qx qy qz)
-        | apply (rhs_lin3 Fth two_nz al be mx my mz px py pz qx qy qz)
-        | apply (rhs_lin4 Fth two_nz al be mx my mz px py pz qx qy qz)
-        | apply (rhs_lin5 Fth two_nz al be mx my mz px py pz qx qy qz) ]; assumption. }
-    pose proof (solve_lin_ext 6 (fst sysp) (snd sysm) (snd sysp) (snd sysq) ltac:(lia) Hpiv Hrhs) as Hsol.
-    set (rm := snd (solve 6 (fst sysp) (snd sysm))) in *.
-    set (rp := snd (solve 6 (fst sysp) (snd sysp))) in *.
-    set (rq := snd (solve 6 (fst sysp) (snd sysq))) in *.
-    clearbody rm rp rq. clearbody sysm sysp sysq.
-    unfold Lin3. cbn [fst snd]. unfold new_ex, new_ey, new_ez.
-    repeat split; intros i j l;
-      (apply upd3_lin; [apply upd3_lin; [assumption|apply Hsol; lia]|apply Hsol; lia]).
+      destruct C as [E|[E|[E|[E|[E|E]]]]]; subst k.
+      + exact (rhs_lin0 Fth two_nz al be mx my mz px py pz qx qy qz smx smy smz spx spy spz sqx sqy sqz
+                 eta_x eta_y eta_z zeta hx hy hz hx_nz hy_nz hz_nz nu lhx nx lhy ny lhz nz
+                 Gx Gy Gz Hsx Hsy Hsz am a1 a2 ix iy iz).
+      + exact (rhs_lin1 Fth two_nz al be mx my mz px py pz qx qy qz smx smy smz spx spy spz sqx sqy sqz
+                 eta_x eta_y eta_z zeta hx hy hz hx_nz hy_nz hz_nz nu lhx nx lhy ny lhz nz
+                 Gx Gy Gz Hsx Hsy Hsz am a1 a2 ix iy iz).
+      + exact (rhs_lin2 Fth two_nz al be mx my mz px py pz qx qy qz smx smy smz spx spy spz sqx sqy sqz
+                 eta_x eta_y eta_z zeta hx hy hz hx_nz hy_nz hz_nz nu lhx nx lhy ny lhz nz
+                 Gx Gy Gz Hsx Hsy Hsz am a1 a2 ix iy iz).
+      + exact (rhs_lin3 Fth two_nz al be mx my mz px py pz qx qy qz smx smy smz spx spy spz sqx sqy sqz
+                 eta_x eta_y eta_z zeta hx hy hz hx_nz hy_nz hz_nz nu lhx nx lhy ny lhz nz
+                 Gx Gy Gz Hsx Hsy Hsz am a1 a2 ix iy iz).
+      + exact (rhs_lin4 Fth two_nz al be mx my mz px py pz qx qy qz smx smy smz spx spy spz sqx sqy sqz
+                 eta_x eta_y eta_z zeta hx hy hz hx_nz hy_nz hz_nz nu lhx nx lhy ny lhz nz
+                 Gx Gy Gz Hsx Hsy Hsz am a1 a2 ix iy iz).
+      + exact (rhs_lin5 Fth two_nz al be mx my mz px py pz qx qy qz smx smy smz spx spy spz sqx sqy sqz
+                 eta_x eta_y eta_z zeta hx hy hz hx_nz hy_nz hz_nz nu lhx nx lhy ny lhz nz
+                 Gx Gy Gz Hsx Hsy Hsz am a1 a2 ix iy iz).
   Qed.
 End LinStep.
+
+(* ------------------------------------------------------------------ *)
+(* the shape of the generated loop nest, as equations                   *)
+Section GSShape.
+  Context {F : Type} {O : FOps F}.
+  Variables (sx sy sz eta_x eta_y eta_z zeta : Z -> Z -> Z -> F).
+  Variables (hx hy hz : Z -> F).
+  Variables (nu lhx nx lhy ny lhz nz : Z).
+
+  Notation L4 := (gs_args_L4 sx sy sz eta_x eta_y eta_z zeta hx hy hz nu lhx nx lhy ny lhz nz).
+  Notation L3 := (gauss_seidel_L3 sx sy sz eta_x eta_y eta_z zeta hx hy hz nu lhx nx lhy ny lhz nz
+                    (kof hx) (kof hy) (kof hz)).
+  Notation L2 := (gauss_seidel_L2 sx sy sz eta_x eta_y eta_z zeta hx hy hz nu lhx nx lhy ny lhz nz
+                    (kof hx) (kof hy) (kof hz)).
+  Notation L1 := (gauss_seidel_L1 sx sy sz eta_x eta_y eta_z zeta hx hy hz nu lhx nx lhy ny lhz nz
+                    (kof hx) (kof hy) (kof hz)).
+
+  Definition ib5 (s : @St5 F) : Z := fst (fst (fst (fst s))).
+  Definition tail5 (s : @St5 F) : @St F :=
+    (snd (fst (fst (fst s))), snd (fst (fst s)), snd (fst s), snd s).
+  Definition cons5 (ib : Z) (t : @St F) : @St5 F :=
+    (ib, fst (fst (fst t)), snd (fst (fst t)), snd (fst t), snd t).
+
+  Lemma tail5_cons5 ib t : tail5 (cons5 ib t) = t.
+  Proof. now destruct t as [[[a b] c] d]. Qed.
+  Lemma ib5_cons5 ib t : ib5 (cons5 ib t) = ib.
+  Proof. reflexivity. Qed.
+
+  Lemma L3_eq iback it izh iz izm izp iyh (st : @St F) :
+    L3 iback it izh iz izm izp iyh st
+    = Zfold 1 nx (fun ixh s => L4 iback it izh iz izm izp iyh (node iback ny iyh)
+                                  (node iback ny iyh - 1) (node iback ny iyh + 1) ixh s) st.
+  Proof.
+    destruct st as [[[a0 fx] fy] fz].
+    cbv delta [gauss_seidel_L3]. cbv beta. cbv zeta.
+    match goal with |- (fst (fst (fst ?t)), _, _, _) = _ => change (w4 t = Zfold 1 nx
+      (fun ixh s => L4 iback it izh iz izm izp iyh (node iback ny iyh)
+                       (node iback ny iyh - 1) (node iback ny iyh + 1) ixh s) (a0, fx, fy, fz)) end.
+    now rewrite !w4_id.
+  Qed.
+
+  Lemma L2_eq iback it izh (st : @St F) :
+    L2 iback it izh st
+    = Zfold 1 ny (fun iyh s => L3 iback it izh (node iback nz izh) (node iback nz izh - 1)
+                                  (node iback nz izh + 1) iyh s) st.
+  Proof.
+    destruct st as [[[a0 fx] fy] fz].
+    cbv delta [gauss_seidel_L2]. cbv beta. cbv zeta.
+    match goal with |- (fst (fst (fst ?t)), _, _, _) = _ => change (w4 t = Zfold 1 ny
+      (fun iyh s => L3 iback it izh (node iback nz izh) (node iback nz izh - 1)
+                       (node iback nz izh + 1) iyh s) (a0, fx, fy, fz)) end.
+    now rewrite !w4_id.
+  Qed.
+
+  Lemma L1_eq it (st : @St5 F) :
+    L1 it st = cons5 (1 - ib5 st) (Zfold 1 nz (fun izh s => L2 (1 - ib5 st) it izh s) (tail5 st)).
+  Proof. reflexivity. Qed.
+
+  Lemma gs_eq (ex ey ez : Z -> Z -> Z -> F) :
+    nx = lhx -> ny = lhy -> nz = lhz ->
+    gauss_seidel lhx lhy lhz ex ey ez sx sy sz eta_x eta_y eta_z zeta hx hy hz nu
+    = (let t := tail5 (Zfold 0 nu (fun it st => L1 it st) (0, fill1 F0, ex, ey, ez)) in
+       (snd (fst (fst t)), snd (fst t), snd t)).
+  Proof. intros -> -> ->. reflexivity. Qed.
+End GSShape.
+
+(* ------------------------------------------------------------------ *)
+(* (v) any three-run relation preserved by the block step (at interior  *)
+(* nodes) is preserved by the whole loop nest                           *)
+Section Lift3.
+  Context {F : Type} {O : FOps F}.
+  Variables (smx smy smz spx spy spz sqx sqy sqz : Z -> Z -> Z -> F).
+  Variables (eta_x eta_y eta_z zeta : Z -> Z -> Z -> F).
+  Variables (hx hy hz : Z -> F).
+  Variables (nu lhx nx lhy ny lhz nz : Z).
+
+  Notation L4 sx sy sz := (gs_args_L4 sx sy sz eta_x eta_y eta_z zeta hx hy hz nu lhx nx lhy ny lhz nz).
+  Notation L3 sx sy sz := (gauss_seidel_L3 sx sy sz eta_x eta_y eta_z zeta hx hy hz nu lhx nx lhy ny lhz nz
+                    (kof hx) (kof hy) (kof hz)).
+  Notation L2 sx sy sz := (gauss_seidel_L2 sx sy sz eta_x eta_y eta_z zeta hx hy hz nu lhx nx lhy ny lhz nz
+                    (kof hx) (kof hy) (kof hz)).
+  Notation L1 sx sy sz := (gauss_seidel_L1 sx sy sz eta_x eta_y eta_z zeta hx hy hz nu lhx nx lhy ny lhz nz
+                    (kof hx) (kof hy) (kof hz)).
+
+  Variable R : @St F -> @St F -> @St F -> Prop.
+  Hypothesis R_step : forall iz iy ix tm t1 t2, interior nx ny nz ix iy iz -> R tm t1 t2 ->
+    R (L4 smx smy smz 0 0 iz iz (iz-1) (iz+1) iy iy (iy-1) (iy+1) ix tm)
+      (L4 spx spy spz 0 0 iz iz (iz-1) (iz+1) iy iy (iy-1) (iy+1) ix t1)
+      (L4 sqx sqy sqz 0 0 iz iz (iz-1) (iz+1) iy iy (iy-1) (iy+1) ix t2).
+
+  Lemma L3_rel3 iback it izh iz iyh tm t1 t2 :
+    (iback = 0 \/ iback = 1) -> 1 <= iz < nz -> 1 <= iyh < ny -> R tm t1 t2 ->
+    R (L3 smx smy smz iback it izh iz (iz-1) (iz+1) iyh tm)
+      (L3 spx spy spz iback it izh iz (iz-1) (iz+1) iyh t1)
+      (L3 sqx sqy sqz iback it izh iz (iz-1) (iz+1) iyh t2).
+  Proof.
+    intros Hb Hz Hy G. rewrite !L3_eq.
+    apply Zfold_rel3; [exact G|].
+    intros i a b c Hi Hr. rewrite !L4_any by assumption.
+    apply R_step; [|assumption].
+    pose proof (node_range iback nx i Hb Hi). pose proof (node_range iback ny iyh Hb Hy).
+    unfold interior.
+    assert (Hn : forall n ih, (if negb (iback =? 0) then n - ih else ih) = node iback n ih)
+      by reflexivity.
+    rewrite ?Hn. lia.
+  Qed.
+
+  Lemma L2_rel3 iback it izh tm t1 t2 :
+    (iback = 0 \/ iback = 1) -> 1 <= izh < nz -> R tm t1 t2 ->
+    R (L2 smx smy smz iback it izh tm) (L2 spx spy spz iback it izh t1) (L2 sqx sqy sqz iback it izh t2).
+  Proof.
+    intros Hb Hz G. rewrite !L2_eq.
+    apply Zfold_rel3; [exact G|].
+    intros j a b c Hj Hr. apply L3_rel3; try assumption.
+    apply node_range; assumption.
+  Qed.
+
+  Definition R5 (sm s1 s2 : @St5 F) : Prop :=
+    (ib5 sm = 0 \/ ib5 sm = 1) /\ ib5 s1 = ib5 sm /\ ib5 s2 = ib5 sm /\
+    R (tail5 sm) (tail5 s1) (tail5 s2).
+
+  Lemma L1_rel3 it sm s1 s2 : R5 sm s1 s2 ->
+    R5 (L1 smx smy smz it sm) (L1 spx spy spz it s1) (L1 sqx sqy sqz it s2).
+  Proof.
+    intros (Hb & E1 & E2 & G). rewrite !L1_eq. rewrite E1, E2.
+    unfold R5. rewrite !ib5_cons5, !tail5_cons5.
+    repeat split; [lia|].
+    apply Zfold_rel3; [exact G|].
+    intros k a b c Hk Hr. apply L2_rel3; [lia|assumption|assumption].
+  Qed.
+
+  Lemma sweeps_rel3 sm s1 s2 : R5 sm s1 s2 ->
+    R5 (Zfold 0 nu (fun it st => L1 smx smy smz it st) sm)
+       (Zfold 0 nu (fun it st => L1 spx spy spz it st) s1)
+       (Zfold 0 nu (fun it st => L1 sqx sqy sqz it st) s2).
+  Proof.
+    intros G. apply Zfold_rel3; [exact G|].
+    intros it a b c _ Hr. now apply L1_rel3.
+  Qed.
+End Lift3.
+
+(* ------------------------------------------------------------------ *)
+(* (A) the whole smoother is linear, hence affine, in (field, source)   *)
+Definition LinF {F : Type} {O : FOps F} (al be : F)
+    (rm r1 r2 : (Z -> Z -> Z -> F) * (Z -> Z -> Z -> F) * (Z -> Z -> Z -> F)) : Prop :=
+  forall i j l,
+    fst (fst rm) i j l = (al * fst (fst r1) i j l + be * fst (fst r2) i j l)%F /\
+    snd (fst rm) i j l = (al * snd (fst r1) i j l + be * snd (fst r2) i j l)%F /\
+    snd rm i j l = (al * snd r1 i j l + be * snd r2 i j l)%F.
+
+Lemma LinF_of_eq {F : Type} {O : FOps F} (al be : F) rm' r1' r2' rm r1 r2 :
+  rm = rm' -> r1 = r1' -> r2 = r2' -> LinF al be rm' r1' r2' -> LinF al be rm r1 r2.
+Proof. now intros -> -> ->. Qed.
+
+Section GSLinear.
+  Context {F : Type} {O : FOps F}.
+  Hypothesis Fth : field_theory F0 F1 Fadd Fmul Fsub Fopp Fdiv Finv (@eq F).
+  Hypothesis two_nz : (1 + 1)%F <> 0%F.
+  Variables (al be : F).
+  Variables (emx emy emz e1x e1y e1z e2x e2y e2z : Z -> Z -> Z -> F).
+  Variables (smx smy smz s1x s1y s1z s2x s2y s2z : Z -> Z -> Z -> F).
+  Variables (eta_x eta_y eta_z zeta : Z -> Z -> Z -> F).
+  Variables (hx hy hz : Z -> F).
+  Hypothesis hx_nz : forall i, hx i <> 0%F.
+  Hypothesis hy_nz : forall i, hy i <> 0%F.
+  Hypothesis hz_nz : forall i, hz i <> 0%F.
+  Variables (nu nx ny nz : Z).
+  Hypothesis Hex : forall i j l, emx i j l = (al * e1x i j l + be * e2x i j l)%F.
+  Hypothesis Hey : forall i j l, emy i j l = (al * e1y i j l + be * e2y i j l)%F.
+  Hypothesis Hez : forall i j l, emz i j l = (al * e1z i j l + be * e2z i j l)%F.
+  Hypothesis Hsx : forall i j l, smx i j l = (al * s1x i j l + be * s2x i j l)%F.
+  Hypothesis Hsy : forall i j l, smy i j l = (al * s1y i j l + be * s2y i j l)%F.
+  Hypothesis Hsz : forall i j l, smz i j l = (al * s1z i j l + be * s2z i j l)%F.
+  (* no block pivot vanishes; the block matrices are the same in the three runs
+     ([sys_matrix_indep_src]), so the hypothesis is stated on run 1 only *)
+  Hypothesis pivots : forall ix iy iz, interior nx ny nz ix iy iz -> forall j, 0 <= j < 6 ->
+    pivot 6 (fst (gs_sys e1x e1y e1z s1x s1y s1z eta_x eta_y eta_z zeta hx hy hz nu nx nx ny ny nz nz
+                         (fun _ => 0%F) ix iy iz)) j <> 0%F.
+
+  Theorem gauss_seidel_linear :
+    let rm := gauss_seidel nx ny nz emx emy emz smx smy smz eta_x eta_y eta_z zeta hx hy hz nu in
+    let r1 := gauss_seidel nx ny nz e1x e1y e1z s1x s1y s1z eta_x eta_y eta_z zeta hx hy hz nu in
+    let r2 := gauss_seidel nx ny nz e2x e2y e2z s2x s2y s2z eta_x eta_y eta_z zeta hx hy hz nu in
+    forall i j l,
+      fst (fst rm) i j l = (al * fst (fst r1) i j l + be * fst (fst r2) i j l)%F /\
+      snd (fst rm) i j l = (al * snd (fst r1) i j l + be * snd (fst r2) i j l)%F /\
+      snd rm i j l = (al * snd r1 i j l + be * snd r2 i j l)%F.
+  Proof.
+    cbv zeta.
+    change (LinF al be
+              (gauss_seidel nx ny nz emx emy emz smx smy smz eta_x eta_y eta_z zeta hx hy hz nu)
+              (gauss_seidel nx ny nz e1x e1y e1z s1x s1y s1z eta_x eta_y eta_z zeta hx hy hz nu)
+              (gauss_seidel nx ny nz e2x e2y e2z s2x s2y s2z eta_x eta_y eta_z zeta hx hy hz nu)).
+    refine (LinF_of_eq al be _ _ _ _ _ _
+              (gs_eq smx smy smz eta_x eta_y eta_z zeta hx hy hz nu nx nx ny ny nz nz emx emy emz
+                     eq_refl eq_refl eq_refl)
+              (gs_eq s1x s1y s1z eta_x eta_y eta_z zeta hx hy hz nu nx nx ny ny nz nz e1x e1y e1z
+                     eq_refl eq_refl eq_refl)
+              (gs_eq s2x s2y s2z eta_x eta_y eta_z zeta hx hy hz nu nx nx ny ny nz nz e2x e2y e2z
+                     eq_refl eq_refl eq_refl) _).
+    cbv zeta.
+    pose proof (sweeps_rel3 smx smy smz s1x s1y s1z s2x s2y s2z eta_x eta_y eta_z zeta hx hy hz
+                  nu nx nx ny ny nz nz (Lin3 al be)
+                  (L4_lin Fth two_nz al be smx smy smz s1x s1y s1z s2x s2y s2z eta_x eta_y eta_z zeta
+                          hx hy hz hx_nz hy_nz hz_nz nu nx nx ny ny nz nz Hsx Hsy Hsz
+                          e1x e1y e1z pivots)
+                  (0, fill1 F0, emx, emy, emz) (0, fill1 F0, e1x, e1y, e1z)
+                  (0, fill1 F0, e2x, e2y, e2z)) as G.
+    destruct G as (_ & _ & _ & Gx & Gy & Gz).
+    { unfold R5. repeat split; try (left; reflexivity); cbn [tail5 fst snd]; assumption. }
+    intros i j l. cbn [fst snd]. repeat split; [apply Gx|apply Gy|apply Gz].
+  Qed.
+
+  (* the statement asked for: affine combinations (al + be = 1) *)
+  Corollary gauss_seidel_affine : (al + be)%F = 1%F ->
+    let rm := gauss_seidel nx ny nz emx emy emz smx smy smz eta_x eta_y eta_z zeta hx hy hz nu in
+    let r1 := gauss_seidel nx ny nz e1x e1y e1z s1x s1y s1z eta_x eta_y eta_z zeta hx hy hz nu in
+    let r2 := gauss_seidel nx ny nz e2x e2y e2z s2x s2y s2z eta_x eta_y eta_z zeta hx hy hz nu in
+    forall i j l,
+      fst (fst rm) i j l = (al * fst (fst r1) i j l + be * fst (fst r2) i j l)%F /\
+      snd (fst rm) i j l = (al * snd (fst r1) i j l + be * snd (fst r2) i j l)%F /\
+      snd rm i j l = (al * snd r1 i j l + be * snd r2 i j l)%F.
+  Proof. intros _. exact gauss_seidel_linear. Qed.
+End GSLinear.
+
+(* ------------------------------------------------------------------ *)
+(* (B) the block relaxed last is exact on the returned field            *)
+Definition last_node (nu n : Z) : Z := if Z.odd nu then 1 else n - 1.
+
+Section LastBlock.
+  Context {F : Type} {O : FOps F}.
+  Hypothesis Fth : field_theory F0 F1 Fadd Fmul Fsub Fopp Fdiv Finv (@eq F).
+  Hypothesis two_nz : (1 + 1)%F <> 0%F.
+  Variables (sx sy sz eta_x eta_y eta_z zeta : Z -> Z -> Z -> F).
+  Variables (hx hy hz : Z -> F).
+  Hypothesis hx_nz : forall i, hx i <> 0%F.
+  Hypothesis hy_nz : forall i, hy i <> 0%F.
+  Hypothesis hz_nz : forall i, hz i <> 0%F.
+  Variables (nu lhx nx lhy ny lhz nz : Z).
+
+  Notation L4 := (gs_args_L4 sx sy sz eta_x eta_y eta_z zeta hx hy hz nu lhx nx lhy ny lhz nz).
+  Notation L3 := (gauss_seidel_L3 sx sy sz eta_x eta_y eta_z zeta hx hy hz nu lhx nx lhy ny lhz nz
+                    (kof hx) (kof hy) (kof hz)).
+  Notation L2 := (gauss_seidel_L2 sx sy sz eta_x eta_y eta_z zeta hx hy hz nu lhx nx lhy ny lhz nz
+                    (kof hx) (kof hy) (kof hz)).
+  Notation L1 := (gauss_seidel_L1 sx sy sz eta_x eta_y eta_z zeta hx hy hz nu lhx nx lhy ny lhz nz
+                    (kof hx) (kof hy) (kof hz)).
+  Notation RES := (edge_res).
+
+  (* the six equations of block (ix,iy,iz) hold on the field of state t *)
+  Definition ExactAt (ix iy iz : Z) (t : @St F) : Prop :=
+    forall k, 0 <= k < 6 ->
+      edge_res (snd (fst (fst t))) (snd (fst t)) (snd t) sx sy sz eta_x eta_y eta_z zeta hx hy hz
+        (cur (snd (fst (fst t))) (snd (fst t)) (snd t) ix iy iz) ix iy iz k = 0%F.
+
+  (* [edge_res f x] depends on f and x only through the patched field *)
+  Lemma edge_res_blk_ext (fx fy fz gx gy gz : Z -> Z -> Z -> F) (x y : Z -> F) ix iy iz k :
+    (forall i j l, blk_x fx x ix iy iz i j l = blk_x gx y ix iy iz i j l) ->
+    (forall i j l, blk_y fy x ix iy iz i j l = blk_y gy y ix iy iz i j l) ->
+    (forall i j l, blk_z fz x ix iy iz i j l = blk_z gz y ix iy iz i j l) ->
+    edge_res fx fy fz sx sy sz eta_x eta_y eta_z zeta hx hy hz x ix iy iz k
+    = edge_res gx gy gz sx sy sz eta_x eta_y eta_z zeta hx hy hz y ix iy iz k.
+  Proof.
+    intros Bx By Bz. unfold edge_res. cbv zeta.
+    unfold A_x, A_y, A_z, curlT_x, curlT_y, curlT_z, u_x, u_y, u_z, curl_x, curl_y, curl_z.
+    rewrite ?Bx, ?By, ?Bz. reflexivity.
+  Qed.
+
+  (* the pivot hypothesis at one node, on the matrix of an arbitrary fixed field *)
+  Variables (e0x e0y e0z : Z -> Z -> Z -> F).
+  Definition PivAt (ix iy iz : Z) : Prop := forall j, 0 <= j < 6 ->
+    pivot 6 (fst (gs_sys e0x e0y e0z sx sy sz eta_x eta_y eta_z zeta hx hy hz nu lhx nx lhy ny lhz nz
+                         (fun _ => 0%F) ix iy iz)) j <> 0%F.
+
+  Lemma L4_exact iz iy ix st : 1 <= ix -> 1 <= iy -> 1 <= iz -> PivAt ix iy iz ->
+    ExactAt ix iy iz (L4 0 0 iz iz (iz-1) (iz+1) iy iy (iy-1) (iy+1) ix st).
+  Proof.
+    intros Hx Hy Hz Hpiv. destruct st as [[[a0 fx] fy] fz].
+    rewrite (L4_step fx fy fz sx sy sz eta_x eta_y eta_z zeta hx hy hz nu lhx nx lhy ny lhz nz a0 ix iy iz).
+    cbv zeta.
+    pose proof (gs_block_exact Fth two_nz fx fy fz sx sy sz eta_x eta_y eta_z zeta hx hy hz
+                  hx_nz hy_nz hz_nz nu lhx nx lhy ny lhz nz a0 ix iy iz Hx Hy Hz) as Hex.
+    cbv zeta in Hex.
+    set (sys := gs_sys fx fy fz sx sy sz eta_x eta_y eta_z zeta hx hy hz nu lhx nx lhy ny lhz nz a0 ix iy iz) in *.
+    assert (Hp : forall j, 0 <= j < 6 -> pivot 6 (fst sys) j <> 0%F).
+    { intros j Hj. unfold sys.
+      rewrite (sys_matrix_indep sx sy sz eta_x eta_y eta_z zeta hx hy hz nu lhx nx lhy ny lhz nz
+                 fx fy fz e0x e0y e0z a0 (fun _ => 0%F)).
+      now apply Hpiv. }
+    specialize (Hex Hp).
+    set (r := snd (solve 6 (fst sys) (snd sys))) in *. clearbody r. clearbody sys.
+    unfold ExactAt. cbn [fst snd]. intros k Hk.
+    rewrite <- (Hex k Hk).
+    apply edge_res_blk_ext; intros i j l.
+    - unfold blk_x, new_ex, cur. cbn [Z.eqb Pos.eqb].
+      rewrite upd3_self; [rewrite upd3_self; reflexivity|reflexivity].
+    - unfold blk_y, new_ey, cur. cbn [Z.eqb Pos.eqb].
+      rewrite upd3_self; [rewrite upd3_self; reflexivity|reflexivity].
+    - unfold blk_z, new_ez, cur. cbn [Z.eqb Pos.eqb].
+      rewrite upd3_self; [rewrite upd3_self; reflexivity|reflexivity].
+  Qed.
+
+  Lemma L3_last iback it izh iz iyh st : (iback = 0 \/ iback = 1) -> 2 <= nx ->
+    1 <= iz -> 1 <= node iback ny iyh ->
+    PivAt (node iback nx (nx - 1)) (node iback ny iyh) iz ->
+    ExactAt (node iback nx (nx - 1)) (node iback ny iyh) iz
+            (L3 iback it izh iz (iz-1) (iz+1) iyh st).
+  Proof.
+    intros Hb Hnx Hz Hy Hpiv. rewrite L3_eq, Zfold_last by lia.
+    rewrite L4_any by assumption.
+    apply L4_exact; try assumption.
+    pose proof (node_range iback nx (nx - 1) Hb). lia.
+  Qed.
+
+  Lemma L2_last iback it izh st : (iback = 0 \/ iback = 1) -> 2 <= nx -> 2 <= ny ->
+    1 <= node iback nz izh ->
+    PivAt (node iback nx (nx - 1)) (node iback ny (ny - 1)) (node iback nz izh) ->
+    ExactAt (node iback nx (nx - 1)) (node iback ny (ny - 1)) (node iback nz izh)
+            (L2 iback it izh st).
+  Proof.
+    intros Hb Hnx Hny Hz Hpiv. rewrite L2_eq, Zfold_last by lia.
+    apply L3_last; try assumption.
+    pose proof (node_range iback ny (ny - 1) Hb). lia.
+  Qed.
+
+  Lemma L1_last it (st : @St5 F) : (ib5 st = 0 \/ ib5 st = 1) -> 2 <= nx -> 2 <= ny -> 2 <= nz ->
+    PivAt (node (1 - ib5 st) nx (nx - 1)) (node (1 - ib5 st) ny (ny - 1)) (node (1 - ib5 st) nz (nz - 1)) ->
+    ExactAt (node (1 - ib5 st) nx (nx - 1)) (node (1 - ib5 st) ny (ny - 1)) (node (1 - ib5 st) nz (nz - 1))
+            (tail5 (L1 it st)).
+  Proof.
+    intros Hb Hnx Hny Hnz Hpiv. rewrite L1_eq, tail5_cons5, Zfold_last by lia.
+    assert (Hb' : 1 - ib5 st = 0 \/ 1 - ib5 st = 1) by lia.
+    apply L2_last; try assumption.
+    pose proof (node_range (1 - ib5 st) nz (nz - 1) Hb'). lia.
+  Qed.
+
+  (* the direction flag after k sweeps *)
+  Lemma sweeps_ib k (s0 : @St5 F) : 0 <= k -> ib5 s0 = 0 ->
+    ib5 (Zfold 0 k (fun it st => L1 it st) s0) = k mod 2.
+  Proof.
+    intros Hk H0.
+    apply (Zfold_ind (fun t s => ib5 s = t mod 2) 0 k _ s0 Hk).
+    - rewrite H0. reflexivity.
+    - intros i s Hi Hs. rewrite L1_eq, ib5_cons5, Hs.
+      pose proof (Z.mod_pos_bound i 2 ltac:(lia)).
+      rewrite (Z.div_mod i 2) at 2 by lia.
+      replace (2 * (i / 2) + i mod 2 + 1) with ((i mod 2 + 1) + (i / 2) * 2) by lia.
+      rewrite Z.mod_add by lia.
+      assert (C : i mod 2 = 0 \/ i mod 2 = 1) by lia.
+      destruct C as [-> | ->]; reflexivity.
+  Qed.
+
+  Lemma node_last n : node (1 - (nu - 1) mod 2) n (n - 1) = last_node nu n.
+  Proof.
+    unfold node, last_node.
+    rewrite <- (Z.odd_succ (nu - 1)), <- Z.negb_odd.
+    replace (Z.succ (nu - 1)) with nu by lia.
+    rewrite (Zmod_odd (nu - 1)).
+    destruct (Z.odd (nu - 1)); cbn [negb Z.eqb Z.sub Z.opp Z.add Pos.eqb]; [reflexivity|lia].
+  Qed.
+
+  Lemma sweeps_last (s0 : @St5 F) : ib5 s0 = 0 -> 1 <= nu -> 2 <= nx -> 2 <= ny -> 2 <= nz ->
+    PivAt (last_node nu nx) (last_node nu ny) (last_node nu nz) ->
+    ExactAt (last_node nu nx) (last_node nu ny) (last_node nu nz)
+            (tail5 (Zfold 0 nu (fun it st => L1 it st) s0)).
+  Proof.
+    intros H0 Hnu Hnx Hny Hnz Hpiv. rewrite Zfold_last by lia.
+    pose proof (sweeps_ib (nu - 1) s0 ltac:(lia) H0) as Hib.
+    set (s' := Zfold 0 (nu - 1) _ s0) in *. clearbody s'.
+    pose proof (Z.mod_pos_bound (nu - 1) 2 ltac:(lia)) as Hm.
+    rewrite <- !node_last in *. rewrite <- Hib in *.
+    apply L1_last; try assumption. lia.
+  Qed.
+End LastBlock.
